@@ -26,6 +26,7 @@ import (
 //	       prefix, x crafted: header magic+algorithm, no CRLF, then a valid stream); clen = length of its snappy stream; .m = the write is redirected once
 //	       -> w:raw | w:framed,short=<t|f>,decodes=<t|f>   (what reached the backend store for that value)
 //	  R<cmd>.<key>  read back through get | hget | hgetall | hscan (values nested one level down) | hmget | hvals | mget | getset  -> r:ok | r:bad<len> | r:nil
+//	c13.swap <seed> <n>  n SETs while another goroutine keeps removing and restoring the compression section; read back -> done=<n> bad=<k> | panic:…
 //	  B<cmd>        a command disabled under compression -> b:rejected | b:sent
 type c13 struct{}
 
@@ -162,8 +163,80 @@ func (s *kvStore) apply(b *redis.RespValue) *redis.RespValue {
 	return &redis.RespValue{Type: redis.Error, Text: []byte("ERR unknown command")}
 }
 
+// swapRun: SETs go through the real request path and filter chain while another goroutine keeps replacing the configuration
+// by one without a compression section and back; then everything is read back without the section.
+func swapRun(seed int64, n int) string {
+	return recoverStr(func() string {
+		with := hx.RedisConfig(pbredis.ReadStrategy_MASTER, &pbredis.Compression{Enable: true, Threshold: 16})
+		without := hx.RedisConfig(pbredis.ReadStrategy_MASTER, nil)
+		rig := redis.VerifNewRig(fmt.Sprintf("c13s-%d", seed), with, []*host.Host{host.New(hx.NodeAddr(0))}, []string{hx.NodeAddr(0)})
+		defer hx.DropScopes(rig.ScopeName())
+		rig.SetSlot(0, 16383, hx.NodeAddr(0), nil)
+		store := &kvStore{str: map[string][]byte{}, hash: map[string]map[string][]byte{}}
+		stop := make(chan struct{})
+		done := make(chan struct{})
+		go func() {
+			defer close(done)
+			for {
+				select {
+				case <-stop:
+					return
+				default:
+				}
+				rig.SetConfig(without)
+				rig.SetConfig(with)
+			}
+		}()
+		pump := func() {
+			for _, s := range rig.Drain() {
+				if s.Filter() {
+					s.Reply(store.apply(s.Body()))
+				}
+			}
+		}
+		val := func(i int) []byte { return append(bytes.Repeat([]byte("0"), 1024), []byte(strconv.Itoa(i))...) }
+		res := func() (out string) {
+			defer func() {
+				if r := recover(); r != nil {
+					out = "panic:" + strings.ReplaceAll(fmt.Sprint(r), " ", "_")
+				}
+			}()
+			for i := 0; i < n; i++ {
+				rig.Handle(hx.Bulks([]byte("set"), []byte(fmt.Sprintf("k%d", i)), val(i)))
+				pump()
+			}
+			return ""
+		}()
+		close(stop)
+		<-done
+		if res != "" {
+			return res
+		}
+		// switched off the documented way (section present, enable=false): a configuration without the section means
+		// "this service never compressed" and leaves values alone
+		rig.SetConfig(hx.RedisConfig(pbredis.ReadStrategy_MASTER, &pbredis.Compression{Enable: false, Threshold: 1}))
+		bad := 0
+		for i := 0; i < n; i++ {
+			raw := rig.Handle(hx.Bulks([]byte("get"), []byte(fmt.Sprintf("k%d", i))))
+			pump()
+			if !raw.Done() || !bytes.Equal(raw.Response().Text, val(i)) {
+				bad++
+			}
+		}
+		return fmt.Sprintf("done=%d bad=%d", n, bad)
+	})
+}
+
 func (c13) Exec(op string) string {
 	f := hx.Fields(op)
+	if len(f) == 3 && f[0] == "c13.swap" {
+		seed, err1 := strconv.ParseInt(f[1], 10, 64)
+		n, err2 := strconv.Atoi(f[2])
+		if err1 != nil || err2 != nil {
+			return "bad-op"
+		}
+		return swapRun(seed, n)
+	}
 	if len(f) < 3 || f[0] != "c13.run" {
 		return "bad-op"
 	}
@@ -376,6 +449,10 @@ func (c13) Gen(r *hx.Run) {
 		return []string{"get", "mget", "getset"}
 	}
 	classes := []byte{'z', 'p', 'r', 'h', 'x'}
+	// the configuration is replaced (section removed and restored) while requests are being filtered
+	for i := 0; i < r.N(3, 20); i++ {
+		r.Do(fmt.Sprintf("c13.swap %d %d", rng.Intn(100000), 3000+rng.Intn(3000)), true, "config-swapped-while-filtering")
+	}
 	for i := 0; i < r.N(500, 12000); i++ {
 		seed := rng.Intn(100000)
 		thr := []int{1, 2, 8, 32, 64, 100, 512, 4096}[rng.Intn(8)]
